@@ -1,4 +1,5 @@
 import Fdo.Proto.Handover
+import Fdo.Facts
 /-
 C03 — ownership handover leaves device credential and stored voucher in agreement.
 -/
@@ -52,5 +53,15 @@ example : agrees (fun h => h.guid ++ h.mfgKey) (fun b => b.reverse) (fun b => [U
     (credOf (fun b => [UInt8.ofNat b.length]) ⟨101, [1], [2], [3], [4, 4], none⟩)
     ⟨⟨101, [1], [2], [3], [4, 4], none⟩, [4, 4, 1]⟩ := by
   simp [agrees, credOf]
+
+
+/-- **What the source does, in which order** (regenerated call-order facts of
+`TO2Server.to2Done2` and `DIServer.diDone`): the replacement voucher is stored only after the
+nonce comparison and after session GUID, current voucher, replacement rendezvous info and GUID
+were read; the DI voucher only after the session's header and certificate chain were read. -/
+theorem code_facts :
+    Fdo.Facts.allBefore "TO2Server.to2Done2" ["Equal", "ReplacementHmac", "Voucher", "RvInfo", "ReplacementGUID", "ownerKey"] "ReplaceVoucher" = true ∧
+    Fdo.Facts.allBefore "DIServer.diDone" ["IncompleteVoucherHeader", "DeviceCertChain"] "AddVoucher" = true ∧
+    Fdo.Facts.before "DIServer.setCredentials" "RvInfo" "SetIncompleteVoucherHeader" = true := by decide +kernel
 
 end Fdo.Props.C03
